@@ -85,6 +85,17 @@ func evalAPI(t *ref.Tree) *failure {
 	if asz != len(b) {
 		return fail("decoded-size", "unmarshal(marshal(%v)): Size()=%d after consuming %d bytes (%s)", t, asz, len(b), hl.Hex(b))
 	}
+	// the same tree built top-down (containers attached while empty, filled afterwards) is the same value
+	if t.Kind.IsContainer() {
+		v2 := amf0lib.BuildTopDown(t)
+		b2, err2, pm2 := amf0lib.Marshal(v2)
+		if pm2 != "" || err2 != nil || !bytes.Equal(b2, b) {
+			return fail("top-down-bytes", "%v built top-down marshals to %s (err=%v %s), built bottom-up to %s", t, hl.Hex(b2), err2, pm2, hl.Hex(b))
+		}
+		if sz2, pm := amf0lib.Size(v2); pm != "" || sz2 != len(b2) {
+			return fail("top-down-size", "%v built top-down (children attached before they are filled): Size()=%d but MarshalBinary produced %d bytes %s", t, sz2, len(b2), pm)
+		}
+	}
 	b2, merr, pm := amf0lib.Marshal(a)
 	if pm != "" {
 		return fail("panic-marshal", "re-marshal of decoded %s panicked: %s", hl.Hex(b), pm)
